@@ -2,3 +2,5 @@
 import GPy.C07.Props
 import GPy.C15.Props
 import GPy.C16.Props
+import GPy.C05.Props
+import GPy.C19.Props
